@@ -39,6 +39,18 @@ fn any_input<const N: usize>(alphabet: &[u8]) -> ([u8; N], usize) {
     (buf, len)
 }
 
+/// `&buf[..len]` as `&str` WITHOUT running core's utf-8 validator (its nested
+/// loops are unwound `unwind^2` times by CBMC, which dominates the run time).
+/// Sound: every byte is asserted to be ASCII first.
+fn ascii_str(bytes: &[u8]) -> &str {
+    let mut i = 0;
+    while i < bytes.len() {
+        assert!(bytes[i] < 128);
+        i += 1;
+    }
+    unsafe { core::str::from_utf8_unchecked(bytes) }
+}
+
 fn same_node(a: Option<&'static Node>, b: Option<&'static Node>) -> bool {
     match (a, b) {
         (None, None) => true,
@@ -110,7 +122,7 @@ fn k_child_case_insensitive() {
         b'S', b's', b'Y', b'y', b'T', b't', b'A', b'a', b'_', b'1', b'X',
     ];
     let (buf, len) = any_input::<4>(&ALPHABET);
-    let name = core::str::from_utf8(&buf[..len]).unwrap();
+    let name = ascii_str(&buf[..len]);
     assert!(same_node(
         CC_ROOT.child(name),
         oracle_child(&CC_ROOT, name.as_bytes())
@@ -322,7 +334,7 @@ fn non_numeric_value(kind: usize, s: &str) -> Value<'_> {
 #[kani::unwind(12)]
 fn k_value_u8() {
     let (buf, len) = any_input::<3>(&INT_ALPHABET);
-    let s = core::str::from_utf8(&buf[..len]).unwrap();
+    let s = ascii_str(&buf[..len]);
 
     let mut kind = 0;
     while kind < 4 {
@@ -346,7 +358,7 @@ fn k_value_u8() {
 #[kani::unwind(12)]
 fn k_value_i8() {
     let (buf, len) = any_input::<3>(&INT_ALPHABET);
-    let s = core::str::from_utf8(&buf[..len]).unwrap();
+    let s = ascii_str(&buf[..len]);
 
     let mut kind = 0;
     while kind < 4 {
@@ -421,7 +433,7 @@ fn k_value_bool() {
 
     const ALPHABET: [u8; 7] = [b'O', b'N', b'n', b'o', b'0', b'1', b'F'];
     let (buf, len) = any_input::<2>(&ALPHABET);
-    let s = core::str::from_utf8(&buf[..len]).unwrap();
+    let s = ascii_str(&buf[..len]);
     let kind: usize = kani::any();
     kani::assume(kind < 7);
     let value = match kind {
@@ -447,10 +459,30 @@ fn k_value_bool() {
 static AM_A: Node = Node { children: &[], command: Some(0), query: None };
 static AM_ROOT: Node = Node { children: &[("A", &AM_A)], command: None, query: None };
 
-/// Inputs are concrete (23 and 25 bytes); the longest loop is the utf-8
-/// validation / position scan over at most 25 bytes; unwind 28.
+/// Replacement for `core::str::from_utf8` in `k_arguments_max` (`-Z stubbing`).
+///
+/// CBMC does not constant-fold the slice iterators of the parser, so every loop
+/// is unwound up to the bound; core's utf-8 validator has two nested loops and is
+/// called once per parameter, which alone exceeds the time limit.  The stub
+/// agrees with the original on ASCII data and ASSERTS that it only ever sees
+/// ASCII data (so it cannot hide anything: on other data the harness fails).
+#[allow(dead_code)]
+fn ascii_only_from_utf8(v: &[u8]) -> Result<&str, core::str::Utf8Error> {
+    let mut i = 0;
+    while i < v.len() {
+        assert!(v[i] < 128, "from_utf8 stub: only valid for ASCII data");
+        i += 1;
+    }
+    Ok(unsafe { core::str::from_utf8_unchecked(v) })
+}
+
+/// Inputs are concrete (22 and 24 bytes).  The longest loop is the parameter
+/// loop of `arguments` (10 iterations for 11 parameters) and the check loop over
+/// the 10 delivered parameters; every other loop (white space, mnemonic, digits,
+/// key comparison) runs at most twice on these inputs; unwind 12.
 #[kani::proof]
-#[kani::unwind(28)]
+#[kani::unwind(12)]
+#[kani::stub(core::str::from_utf8, ascii_only_from_utf8)]
 fn k_arguments_max() {
     // exactly MAX_ARGS (10) parameters: accepted, all of them delivered in order
     let input: &[u8] = b"A 1,2,3,4,5,6,7,8,9,0\n";
